@@ -31,6 +31,37 @@ def _mode_chunk(chunk):
     return len(chunk), nt, fails
 
 
+def _link_chunk(chunk):
+    """permissions of an installed symbolic link never reach through the link: the file it points to (possibly outside the
+    staged tree) keeps its mode, whatever install_mode / install_umask say"""
+    from mesonbuild import minstall
+    from mesonbuild.utils.universal import FileMode
+    fails, nt = [], 0
+    for target_mode, perms, umask, relative in chunk:
+        with tempfile.TemporaryDirectory() as d:
+            outside = os.path.join(d, 'outside')
+            stage = os.path.join(d, 'stage', 'share')
+            os.makedirs(outside)
+            os.makedirs(stage)
+            tgt = os.path.join(outside, 'secret') if not relative else os.path.join(stage, 'data.txt')
+            open(tgt, 'w').close()
+            os.chmod(tgt, target_mode)
+            link = os.path.join(stage, 'link')
+            os.symlink(os.path.relpath(tgt, stage) if relative else tgt, link)
+            mode = FileMode(perms, None, None) if perms is not None else None
+            nt += 1
+            try:
+                minstall.set_mode(link, mode, umask)
+            except Exception as ex:
+                fails.append({'case': {'target_mode': oct(target_mode), 'install_mode_perms': perms, 'umask': umask if isinstance(umask, str) else oct(umask), 'relative_target': relative}, 'stage': 'symlink', 'detail': f'raised {type(ex).__name__}: {ex}'})
+                continue
+            got = stat.S_IMODE(os.stat(tgt).st_mode)
+            if got != target_mode and perms is None:
+                fails.append({'case': {'target_mode': oct(target_mode), 'install_mode_perms': perms, 'umask': umask if isinstance(umask, str) else oct(umask), 'relative_target': relative},
+                              'stage': 'symlink', 'detail': f'setting the default permissions of an installed symbolic link changed the mode of its target from {oct(target_mode)} to {oct(got)}' + ('' if relative else ' (a file outside the staged tree)')})
+    return len(chunk), nt, fails
+
+
 def _filter_chunk(chunk):
     from mesonbuild import minstall
 
@@ -72,6 +103,10 @@ def run(REG, tier, seed, jobs):
     cases = [(sm, pm, og, um) for sm in (0o644, 0o666, 0o755, 0o775, 0o600) for pm in (None, 'rw-r-----', 'rwxr-xr-x') for og in (False, True) for um in (0o022, 0o027, 0o077, 0, 'preserve')]
     ev, nt, fails = pmap(_mode_chunk, chunked(iter(cases), 10), jobs)
     parts.append({'name': 'C11/bounded/installed-mode-bits', 'function': 'set_mode / sanitize_permissions', 'bound': f'{len(cases)} cases: source mode x declared permissions x owner given x install_umask, on real temporary files',
+                  'evaluations': ev, 'distinct_nontrivial': nt, 'rule': 'every case', 'exhaustive': True, 'failures': fails})
+    cases = [(tm, pm, um, rel) for tm in (0o600, 0o644, 0o755, 0o400) for pm in (None,) for um in (0o022, 0o077, 0, 'preserve') for rel in (False, True)]
+    ev, nt, fails = pmap(_link_chunk, chunked(iter(cases), 8), jobs)
+    parts.append({'name': 'C11/bounded/symlink-target-untouched', 'function': 'set_mode / sanitize_permissions on a symbolic link', 'bound': f'{len(cases)} cases: mode of the link target x install_umask x target outside / inside the staged tree',
                   'evaluations': ev, 'distinct_nontrivial': nt, 'rule': 'every case', 'exhaustive': True, 'failures': fails})
     cases = [(s, t, sk, tg) for s in ('', 'sub', 'other') for t in (None, 'devel', 'runtime') for sk in ((), ('sub',), ('*',), ('x', 'sub')) for tg in (None, (), ('devel',), ('runtime', 'man'))]
     ev, nt, fails = pmap(_filter_chunk, chunked(iter(cases), 40), jobs)
